@@ -773,6 +773,36 @@ def F(clause, msg, **key):
     return Fail(PROP, clause, msg, key)
 
 
+def _bottoms_counterfactual(rs: RealSeq, new_spec: dict, tl0: dict) -> bool:
+    """Attribution of a strict-switch difference on a sequence with an SLM mask (known finding F5e): the same
+    strict switch to the same new device, except that every DMM of it gets the bottom detunings of the DMM that
+    carries the mask in the ORIGINAL — then raises or returns the identical timeline.  (Wherever the mask lands,
+    it is then clipped as in the original; nothing else is changed.)"""
+    seq = rs.seq
+    mask_dmm = getattr(seq, "_slm_mask_dmm", None)
+    sch = seq._schedule.get(mask_dmm) if mask_dmm else None
+    if sch is None:
+        return False
+    obj = sch.channel_obj
+    spec2 = copy.deepcopy(new_spec)
+    for d in spec2.get("dmms", []):
+        d["bottom_detuning"] = None if obj.bottom_detuning is None else float(obj.bottom_detuning)
+        d["total_bottom_detuning"] = (None if obj.total_bottom_detuning is None
+                                      else float(obj.total_bottom_detuning))
+    try:
+        with warnings.catch_warnings():
+            warnings.simplefilter("ignore")
+            new2 = seq.switch_device(Dev18(spec2).device, True)
+    except Exception:  # noqa: BLE001
+        return True
+    if new2 is seq:
+        return True
+    t2 = timeline(new2)
+    return (diff([dict(c, eom=None) for c in tl0["chans"]], [dict(c, eom=None) for c in t2["chans"]], "") is None
+            and diff([c["eom"] for c in tl0["chans"]], [c["eom"] for c in t2["chans"]], "") is None
+            and diff(dict(refs=tl0["refs"], measured=tl0["measured"]), dict(refs=t2["refs"], measured=t2["measured"]), "") is None)
+
+
 def check_device_switch(rs: RealSeq, new_spec: dict, strict: bool, edits: list, base_obs: dict) -> Result:
     """`base_obs` caches the original's timeline / samples."""
     res = Result()
@@ -863,6 +893,10 @@ def check_device_switch(rs: RealSeq, new_spec: dict, strict: bool, edits: list, 
                 extra = {}
                 if any(c.name == "config_slm_mask" for c in seq._calls + seq._to_build_calls):
                     extra["slm_mask"] = True      # (the SLM-mask detuning is clipped at the DMM's bottom detunings)
+                    if "slm_bottom_only" not in base_obs.setdefault("cf", {}):
+                        base_obs["cf"]["slm_bottom_only"] = _bottoms_counterfactual(rs, new_spec, base_obs["tl"])
+                    if base_obs["cf"]["slm_bottom_only"]:
+                        extra["slm_bottom_only"] = True
                 res.fails.append(F("strict-identical", f"strict switch returned a different {what}: {d}",
                                    param=pkey, what=what, cause=cause, param_class=pclass, eom_samples_close=close,
                                    **extra))
